@@ -489,10 +489,87 @@ def many_eval(n):
     return None
 
 
+# ---------------------------------------------------------------- stores and user ids of other kinds
+
+def special_eval(which):
+    """(a) the store handed over as an *empty* mapping object (a freshly opened shelf, a dict subclass): identifiers
+    must land in that object - a second IdentDB around it, and the file reopened later, resolve them;
+    (b) local user ids that are not text (int, UUID, bytes): stable persistent identifiers, the id comes back as
+    the same object kind, ids 7 and '7' are two users."""
+    import os
+    import shelve
+    import uuid
+    import collections
+    from saml2_tophat.ident import IdentDB
+    from vp import world
+    env.reset_rng()
+    if which in ('empty-shelf', 'empty-userdict', 'empty-ordereddict'):
+        path = os.path.join(CFG.get('tmp') or '/tmp', 'c18-special-%d-%s' % (os.getpid(), which))
+        for ext in ('', '.db', '.dat', '.dir', '.bak'):
+            if os.path.exists(path + ext):
+                os.unlink(path + ext)
+        store = shelve.open(path) if which == 'empty-shelf' else (collections.UserDict() if which == 'empty-userdict' else collections.OrderedDict())
+        a = IdentDB(store, domain='example.org')
+        n1 = a.persistent_nameid('u1', 'spA', '')
+        t1 = a.transient_nameid('u1', 'spA', '')
+        if not len(store):
+            return 'identifiers-not-written-to-the-store-handed-over'
+        b = IdentDB(store, domain='example.org')
+        if b.find_local_id(n1) != 'u1' or b.find_local_id(t1) != 'u1':
+            return 'second-handle-on-the-same-store-does-not-resolve'
+        if b.persistent_nameid('u1', 'spA', '').text != n1.text:
+            return 'persistent-identifier-differs-through-second-handle'
+        if which == 'empty-shelf':
+            store.close()
+            c = IdentDB(path, domain='example.org')
+            try:
+                if c.find_local_id(n1) != 'u1':
+                    return 'identifier-lost-after-reopening-the-file'
+                if c.persistent_nameid('u1', 'spA', '').text != n1.text:
+                    return 'persistent-identifier-changed-after-reopening-the-file'
+            finally:
+                c.db.close()
+                for ext in ('', '.db', '.dat', '.dir', '.bak'):
+                    if os.path.exists(path + ext):
+                        os.unlink(path + ext)
+        return None
+    uid = {'int': 1001, 'uuid': uuid.UUID(int=7), 'bytes': b'u-1001', 'int-and-its-text': 7}[which]
+    db = IdentDB({}, domain='example.org')
+    p1 = db.persistent_nameid(uid, 'spA', '')
+    if db.persistent_nameid(uid, 'spA', '').text != p1.text:
+        return 'persistent-identifier-not-stable'
+    back = db.find_local_id(p1)
+    if back != uid or type(back) is not type(uid):
+        return 'identifier-resolves-to-%r' % (back,)
+    if which == 'int-and-its-text':
+        p2 = db.persistent_nameid('7', 'spA', '')
+        if p2.text == p1.text:
+            return 'two-users-share-a-persistent-identifier'
+        if db.find_local_id(p2) != '7' or db.find_local_id(p1) != 7:
+            return 'identifier-resolves-to-the-other-user'
+        db.remove_local('7')
+        if db.find_local_id(p1) != 7:
+            return 'removing-one-user-withdrew-the-others-identifier'
+    t = db.transient_nameid(uid, 'spA', '')
+    db.remove_local(uid)
+    for x in (p1, t):
+        try:
+            r = db.find_local_id(x)
+        except Exception:
+            r = None
+        if r is not None:
+            return 'identifier-resolves-after-remove_local'
+    return None
+
+
+SPECIALS = ('empty-shelf', 'empty-userdict', 'empty-ordereddict', 'int', 'uuid', 'bytes', 'int-and-its-text')
+
+
 # ---------------------------------------------------------------- encoding table
 
 ALPH = ['a', ',', '=', '%', ' ', '"', 'é', '/', '+', '0', '&', '%2C', '1=x',
-        'e\u0308', '\u212b', '\u2126']       # not in NFC: decomposed e-diaeresis, ANGSTROM SIGN, OHM SIGN
+        'e\u0308', '\u212b', '\u2126',       # not in NFC: decomposed e-diaeresis, ANGSTROM SIGN, OHM SIGN
+        '\udcc3\udca9']                      # lone surrogates standing for the UTF-8 bytes of 'é' (PEP 383): refusing is fine, aliasing is not
 
 
 def strings(n):
@@ -515,7 +592,10 @@ def encoding_chunk(args):
             for f in ((f0, rest[0], None, None, rest[1]), (None, f0, rest[0], rest[1], 'T'), (rest[0], None, f0, 'p', rest[1])):
                 nid = NameID(name_qualifier=f[0] or None, sp_name_qualifier=f[1] or None, format=f[2] or None,
                              sp_provided_id=f[3] or None, text=f[4] or None)
-                c = code(nid)
+                try:
+                    c = code(nid)
+                except UnicodeEncodeError:
+                    continue            # refused: nothing stored under an ambiguous key
                 n += 1
                 d = decode(c)
                 want = tuple(x or None for x in f)
@@ -586,6 +666,16 @@ def run(ctx):
     for n_, why in zip((10, 65, 70, 300, 1100), ctx.pmap(many_eval, [10, 65, 70, 300, 1100], chunksize=1)):
         if why:
             ctx.violation({'kind': 'many', 'why': why.split('-of-')[0] if '-of-' in why else why, 'count': n_}, {'detail': why})
+    CFG['tmp'] = ctx.tmp
+    for which in SPECIALS:
+        try:
+            why = special_eval(which)
+        except NameError:
+            raise
+        except Exception as e:
+            why = 'raised:%s' % type(e).__name__
+        if why:
+            ctx.violation({'kind': 'special', 'case': which, 'why': why.split(':')[0]}, {'detail': why})
     # removal layer
     CFG['rdepth'] = 4 if not ctx.thorough else 5
     rem = ctx.pmap(removal_chunk, R_OPS, chunksize=1)
